@@ -470,6 +470,89 @@ def multi_case(item, acc: core.Acc, tier):
     return None
 
 
+# ---- the same statement text, another result ----------------------------------------------------------------------------
+# "A new execute replaces the old result set completely" also when the new statement has the very text of the old one and
+# only its result differs: one long-lived cursor executes `select * from vs order by 1` twice while the view vs is replaced
+# in between (by another cursor of the connection / by another connection), for every ordered pair of result shapes and
+# every way of having looked at the first result (nothing, description, description + fetchone, fetchall + description).
+# Whatever the cursor remembers about a statement (its description, its rows, its fetch position) must be the second
+# result's afterwards: description names, tuple width, DictCursor keys, rows, rowcount, fetch_pandas_all columns.
+VIA_SHAPES = [("a", 2), ("ab", 3), ("ab", 0), ("mixed", 2), ("nulls", 3)]
+VIA_TEXT = "select * from vs order by 1"
+VIA_LOOKS = ["none", "desc", "desc+one", "all+desc"]
+
+
+def via_items(tier):
+    out = []
+    for kind in ("tuple", "dict"):
+        for a in VIA_SHAPES:
+            for b in VIA_SHAPES:
+                if a != b:
+                    for look in VIA_LOOKS:
+                        for replacer in ("other_cursor", "other_connection"):
+                            out.append((kind, a, b, look, replacer))
+    return out
+
+
+def via_case(item, acc: core.Acc, tier):
+    from snowflake.connector.cursor import DictCursor, SnowflakeCursor
+
+    kind, a, b, look, replacer = item
+    conn = _conn()
+    if "conn2" not in _WORK:
+        _WORK["conn2"] = _WORK["fs"].connect(database="db1", schema="s1")
+    helper = (conn if replacer == "other_cursor" else _WORK["conn2"]).cursor()
+    cur = conn.cursor(DictCursor if kind == "dict" else SnowflakeCursor)
+    rp = {"via": [kind, list(a), list(b), look, replacer]}
+    cls = f"same_text_other_result,first={a[0]},second={b[0]},looked_at_first={look}"
+    acc.count("evaluations")
+    acc.count("transitions")
+    acc.count("traces")
+    want = shape_rows(*b)
+    names = COLSETS[b[0]][1]
+    try:
+        helper.execute("create or replace view db1.s1.vs as " + COLSETS[a[0]][0].format(n=a[1]))
+        cur.execute(VIA_TEXT)
+        if "desc" in look:
+            first_names = [d.name for d in cur.description]
+            if first_names != COLSETS[a[0]][1]:
+                acc.violation("C05.description_names", cls + ",result=first", {"expected": COLSETS[a[0]][1], "got": first_names}, rp)
+                return None
+        if "one" in look:
+            cur.fetchone()
+        if "all" in look:
+            cur.fetchall()
+        helper.execute("create or replace view db1.s1.vs as " + COLSETS[b[0]][0].format(n=b[1]))
+        cur.execute(VIA_TEXT)
+        got_names = [d.name for d in cur.description]
+        rowcount = cur.rowcount
+        rows = cur.fetchall()
+        after = cur.fetchone()
+        df = cur.fetch_pandas_all()
+    except Exception as e:  # noqa: BLE001
+        acc.violation("C05.no_exception", cls + f",exc={type(e).__name__}", {"error": str(e)[:200]}, rp)
+        return None
+    acc.obs((item, got_names, rowcount, repr(rows), repr(after), list(df.columns)))
+    acc.nontrivial(("via", item))
+    if got_names != names:
+        acc.violation("C05.description_names", cls, {"expected": names, "got": got_names}, rp)
+    if rowcount != len(want):
+        acc.violation("C05.rowcount", cls, {"expected": len(want), "got": rowcount}, rp)
+    if list(df.columns) != names or len(df) != len(want):
+        acc.violation("C05.pandas", cls, {"expected_columns": names, "got_columns": list(df.columns), "rows": len(df)}, rp)
+    if after is not None:
+        acc.violation("C05.sequence", cls + ",exhaustion", {"got": repr(after)}, rp)
+    ok = len(rows) == len(want)
+    for gr, er in zip(rows, want):
+        if kind == "tuple":
+            ok = ok and isinstance(gr, tuple) and len(gr) == len(er) and all(_eqv(g, e) for g, e in zip(gr, er))
+        else:
+            ok = ok and isinstance(gr, dict) and list(gr.keys()) == names and all(_eqv(gr[k], e) for k, e in zip(names, er))
+    if not ok:
+        acc.violation("C05.dict_row" if kind == "dict" else "C05.sequence", cls, {"expected": [repr(x) for x in want], "got": [repr(x) for x in rows]}, rp)
+    return None
+
+
 def run(ctx: core.Ctx):
     ctx.rule = (
         "BFS to fixpoint over abstract cursor states (kind, shape, rows handed out, arraysize); every enabled op "
@@ -512,6 +595,9 @@ def run(ctx: core.Ctx):
     mi = multi_items(ctx.tier)
     ctx.pmap(multi_case, mi, recheck=False)
     ctx.extra["several_result_sets_alive"] = {"cases": len(mi), "sources": ["execute_string (2 statements)", "two cursors of one connection"], "fetch_calls_interleaved": 3}
+    vi = via_items(ctx.tier)
+    ctx.pmap(via_case, vi, recheck=False)
+    ctx.extra["same_text_other_result"] = {"cases": len(vi), "shapes": [list(x) for x in VIA_SHAPES], "looked_at_first": VIA_LOOKS, "replaced_by": ["other_cursor", "other_connection"]}
     for st in seen:
         ctx.acc.add("states", st)
     ctx.exhaustive = True
@@ -520,6 +606,12 @@ def run(ctx: core.Ctx):
 
 def replay(payload):
     r = payload["replay"]
+    if "via" in r:
+        kind, a, b, look, replacer = r["via"]
+        acc = core.Acc()
+        via_case((kind, tuple(a), tuple(b), look, replacer), acc, "quick")
+        print(acc.viol or "ok")
+        return bool(acc.viol)
     if "multi" in r:
         kind, source, pair, seq = r["multi"]
         acc = core.Acc()
